@@ -15,6 +15,26 @@ CHECKS = {
                      "conditions partition the plane and z3 decides on every cell, for all its points, that the answer equals the crossing-number truth "
                      "(off the boundary) or the boundary flag (on it). Every cell witness is replayed on the plain library.",
                 technique="symbolic execution of the real code (SYMX) + z3 (QF_LRA) per path cell, counterexample replay"),
+    "C01": dict(level="model_checking", design="4/C01",
+                text="The real operators (| & - ^ ~ + * unary -, nested expressions) executed under SYMX with one operand translated by a symbolic amount; "
+                     "the explored path conditions partition the parameter range, and on every cell z3 decides, with the query point free, that the region "
+                     "denoted by the returned shape equals the Boolean combination of the operand regions off their boundaries; raising / non-returning "
+                     "paths are violations where z3 finds a parameter with transversal boundaries. Witnesses and counterexamples replayed on the plain library.",
+                technique="symbolic execution of the real code (SYMX) + z3 per path cell, free query point, counterexample replay"),
+    "C05": dict(level="model_checking", design="4/C05",
+                text="Operators and the real integrator executed under SYMX on symbolically translated operands; the inclusion-exclusion identities "
+                     "for all moments of order <= 2 become polynomial identities in the parameter that z3 decides on every path cell.",
+                technique="symbolic execution of the real code (SYMX) + z3 polynomial identities per path cell"),
+    "C06": dict(level="model_checking", design="4/C06",
+                text="Per path cell of the operator explorations z3 decides well-formedness of the returned shape for all parameter values: no zero-length "
+                     "piece, no zero-area curve, no crossing among result edges, Connected/Disjoint structure (holes inside outer and apart; components disjoint, "
+                     "query point free), kind of ~result per the documented table, junction sharing; the five singleton laws on symbolically translated catalogue shapes.",
+                technique="symbolic execution of the real code (SYMX) + z3 structural obligations per path cell"),
+    "C13": dict(level="model_checking", design="4/C13",
+                text="Kind tracking in SYMX: on every path of the operator/intersection/integral/move/scale explorations no Python float may have entered "
+                     "an output value (all parameter values of each cell); each cell witness is replayed on real Fractions and every output is type-checked and "
+                     "compared exactly with the exact rational of the symbolic run; regression witnesses for the repaired limit_denominator defect.",
+                technique="symbolic execution with exact/float kind tags (SYMX) + z3 path exploration; exact typed replay of each cell witness"),
 }
 NA = {}
 
